@@ -1485,15 +1485,15 @@ where
             let rules: Vec<rules::Rule> = rules_array
                 .iter()
                 .filter_map(|rule_table| {
-                    let cidr = rule_table
-                        .get("cidr")
-                        .and_then(Item::as_str)
-                        .map(|s| s.to_string());
-
-                    let client_random_prefix = rule_table
-                        .get("client_random_prefix")
-                        .and_then(Item::as_str)
-                        .map(|s| s.to_string());
+                    // a condition that is present but not a string is malformed: like any other
+                    // malformed condition it matches nothing (it must not read as "no condition")
+                    let condition = |key: &str| {
+                        rule_table
+                            .get(key)
+                            .map(|x| x.as_str().unwrap_or("?").to_string())
+                    };
+                    let cidr = condition("cidr");
+                    let client_random_prefix = condition("client_random_prefix");
 
                     let action = rule_table
                         .get("action")
